@@ -767,6 +767,7 @@ func main() {
 	fmt.Fprintf(&out, "/-- JSONNode accessors returning a pointer / interface that answer `(nil, nil)` when the field is null\n(`if x == nil { return nil, nil }`). -/\ndef jsonNullAccepting : List String := [%s]\n\n", strings.Join(nullAcc, ", "))
 
 	out.WriteString(udfRouting(repo))
+	out.WriteString(udfWrapperGuards(repo))
 
 	out.WriteString("end Kap.C05.Gen\n")
 	path := filepath.Join(lean, "Kap", "Gen", "C05.lean")
